@@ -418,6 +418,34 @@ Proof.
     destruct out; split; reflexivity.
 Qed.
 
+(* FINDING: without -l the profiler is cProfile, whose dump_stats() = create_stats() +
+   marshal begins with self.disable(): the first periodic dump of the -i timer thread ends
+   the profiling.  Witness: a program that calls f0 ("early"), is caught by the periodic
+   dump after 3 events and then calls f1 ("late") and returns: the program ran to its end
+   (all 6 events), the file's last write is main's own dump, and it holds 1 call of f0 and
+   NO call of f1 although f1 executed once - under the line profiler (-l) the same run
+   with the same periodic dump delivers both (C06_final_dump_with_periodic_dumps). *)
+Definition cpi_stream : list pev := [PCall 0; PLine 0 2; PRet 0; PCall 1; PLine 1 5; PRet 1].
+Definition dumped_calls (r : list eff * outcome * pst) (outfile : string) (f : Z) : option Z :=
+  match last_dump (fst (fst r)) with
+  | Some (o, s) => if String.eqb o outfile then Some (p_calls s f) else None
+  | None => None
+  end.
+
+Theorem cprofile_periodic_dump_refuted :
+  exists (stream : list pev) (kd : kind) (reg : Z -> bool) (out : ostate) (tick : nat) (ctx : bool)
+         (outfile : string) (late : Z),
+    closed stream = true
+    /\ program_events (fst (fst (kern_run_ticks_c stream kd reg out [tick] ctx outfile))) = stream
+    /\ count_eff is_dump (fst (fst (kern_run_ticks_c stream kd reg out [tick] ctx outfile))) = 2
+    /\ count_call reg stream late = 1
+    /\ dumped_calls (kern_run_ticks_c stream kd reg out [tick] ctx outfile) outfile late = Some 0
+    /\ dumped_calls (kern_run_ticks stream kd reg out [tick] ctx outfile) outfile late = Some 1.
+Proof.
+  exists cpi_stream, KReturn, (fun _ => true), OutOk, 3%nat, true, "prog.py.prof", 1.
+  vm_compute. repeat split; reflexivity.
+Qed.
+
 (* ---- the wrappers' windows are transparent --------------------------------------------------- *)
 Lemma prof_step_unreg reg st e : reg (fn_of e) = false -> prof_step reg st e = st.
 Proof. unfold prof_step. intros ->. reflexivity. Qed.
